@@ -12,7 +12,7 @@ def xml_escape_chain(rep, ctx):
     paths = eng.explore(path)
     rep.functions_encoded.append(path)
     if len(paths) != 1 or paths[0].status != "return":
-        raise Inconclusive("xml_escape is not a straight-line function any more (%d paths)" % len(paths))
+        return None
     r = paths[0]
     reps = [e for e in r.events if e.kind == "call" and re.search(r"str>::replace$|str::replace$|::replace$", e.callee)]
     chain = []
@@ -35,7 +35,71 @@ def xml_escape_chain(rep, ctx):
     return chain
 
 
+def xml_escape_charloop(rep, ctx):
+    """xml_escape written as one pass over the characters: {printable ASCII char: image}, read from the paths of ONE loop iteration
+    (the character is symbolic; for each of the 95 characters the solver selects the path it takes), plus the loop-shape obligation."""
+    path = ctx.one("helpers::xml_escape")
+    eng = ctx.engine(loop_bound=2, max_paths=4000)
+    paths = [r for r in eng.explore(path) if r.status == "return"]
+    one = []
+    shape_ok = True
+    for r in paths:
+        nx = [e for e in r.events if e.kind == "call" and re.search(r"Chars<'_> as Iterator>::next$|Chars as Iterator>::next$|Chars<.*>::next$", e.callee)]
+        some = [e for e in nx if check_sat(r.pc + [e.ret.discr() == 1])[0] == "sat" and implied(r, e.ret.discr() == 1)]
+        if len(some) != 1 or len(nx) != 2:
+            continue
+        ch = eng.fresh  # noqa (placeholder to keep flake quiet)
+        c = some[0].ret.child(("v", "Some", 0))
+        pushes = [e for e in r.events if e.kind == "call" and re.search(r"String::(push_str|push)$", e.callee)]
+        bufs = [e for e in r.events if e.kind == "call" and re.search(r"String::(with_capacity|new)$", e.callee)]
+        chars = [e for e in r.events if e.kind == "call" and re.search(r"str::chars$|String::chars$|::chars$", e.callee)]
+        if not (bufs and chars and same_origin(r.ret, bufs[0].ret) and all(same_origin(p_.rargs[0], bufs[0].ret) for p_ in pushes) and derives(chars[0].rargs[0], r.args[0], r.events)):
+            shape_ok = False
+        one.append((r, c, pushes))
+    if not one:
+        return None
+    imgmap = {}
+    undecided = []
+    for k in range(0x20, 0x7f):
+        hit = None
+        for (r, c, pushes) in one:
+            cv = c.scalar("char") if hasattr(c, "scalar") else None
+            try:
+                zc = eng.to_z3(c, "char")
+            except Exception:
+                zc = cv
+            rs, _m, _dt, _zm = check_sat(r.pc + [zc == z3.BitVecVal(k, zc.size())])
+            if rs == "sat":
+                out = ""
+                okp = True
+                for p_ in pushes:
+                    a = p_.rargs[1]
+                    if p_.callee.endswith("push_str") and isinstance(origin(a), StrV):
+                        out += origin(a).e.as_string()
+                    elif p_.callee.endswith("::push") and same_origin(a, c):
+                        out += chr(k)
+                    elif p_.callee.endswith("::push") and isinstance(a, Scalar) and z3.is_bv_value(z3.simplify(a.e)):
+                        out += chr(z3.simplify(a.e).as_long())
+                    else:
+                        okp = False
+                if not okp:
+                    undecided.append(chr(k))
+                hit = out
+                break
+        if hit is None:
+            undecided.append(chr(k))
+        else:
+            imgmap[chr(k)] = hit
+    if undecided:
+        raise Inconclusive("xml_escape (character loop): image of %r not readable from the paths" % undecided[:5])
+    rep.add(Query("xml_escape is one pass over the characters of its argument appending each character's image to an initially empty buffer that it returns; images read for all 95 printable ASCII characters "
+                  "(non-identity: %s)" % {k: v for k, v in imgmap.items() if k != v}, "holds" if shape_ok else "violated", "%d one-character paths" % len(one), 0, "mirsym+z3", key="C18.escape.chain", reproduced=None))
+    return imgmap
+
+
 def image(chain, s):
+    if isinstance(chain, dict):
+        return "".join(chain.get(ch, ch) for ch in s)
     for ch, to in chain:
         s = s.replace(ch, to)
     return s
@@ -43,10 +107,17 @@ def image(chain, s):
 
 def check_escape(rep, ctx, tier):
     chain = xml_escape_chain(rep, ctx)
+    if chain is None:
+        chain = xml_escape_charloop(rep, ctx)       # the same function written as a loop over the characters
+        if chain is None:
+            raise Inconclusive("xml_escape is neither a chain of replace() calls nor a single pass over the characters")
     N = 3 if tier == "quick" else 6
     # per-character image as a z3 term: ITE over the characters the chain mentions (their images computed by running the chain
     # on the one-character string, which is exact because every pattern is a single character)
-    mentioned = sorted({c for c, _t in chain} | set("".join(t for _c, t in chain)) | set(SPECIAL))
+    if isinstance(chain, dict):
+        mentioned = sorted(set(chain) | set(SPECIAL))
+    else:
+        mentioned = sorted({c for c, _t in chain} | set("".join(t for _c, t in chain)) | set(SPECIAL))
     x = z3.String("c")
     s = z3.Solver()
 
